@@ -146,7 +146,8 @@ def parse_res(line):
     """(res ID (trace ...) (ok) (pkg ..) (imports ..) (tree ..)) -> dict"""
     sx = parse_sx(ERR_RE.sub(r"(\1)", line))
     d = {"id": sx[1], "trace": sx_field(sx[2:], "trace") or [], "status": "ok",
-         "touched": [int(x) for x in (sx_field(sx[2:], "touched") or [])]}
+         "touched": [int(x) for x in (sx_field(sx[2:], "touched") or [])],
+         "missed": (sx_field(sx[2:], "missed") or ["?"])[0], "typed": (sx_field(sx[2:], "typed") or ["?"])[0]}
     if sx_field(sx[2:], "err") is not None:
         d["status"] = "err"
     elif sx_field(sx[2:], "panic") is not None:
@@ -271,6 +272,18 @@ def engine_projection(ctx, results, what_checks):
         if len(ctx.samples) < 3 and inp.get("patches") and any(t.startswith("k") for t in impl["trace"]):
             ctx.sample({"id": inp["id"], "patch": inp["patches"][0][:600], "src": (inp.get("src") or "")[:600],
                         "trace": tr})
+        ctx.count("typed:" + str(model.get("typed")))
+        if model.get("typed") == "0" and "where" in what_checks:
+            # the theorems about instances assume well-typed trees in parser normal form (Spec/Typing.lean)
+            ctx.broken("correspondence", f"the tree of case {inp.get('id')} is not well-typed / in parser normal form with respect to "
+                                         f"the schema of go/ast (wtv / nf of Spec/Typing.lean)")
+        if "converse" in what_checks:
+            ctx.count("missed:" + ("0" if model.get("missed") == "0" else "?" if model.get("missed") == "?" else ">0"))
+            if model.get("missed") not in ("0", "?") and impl["trace"] == model["trace"]:
+                # the reference matcher (every choice of runs for every elision) finds an instance at a node where the
+                # engine's matcher, which the implementation agrees with here, finds none
+                ctx.violation(f"{model.get('missed')} node(s) are syntactic instances of the '-' pattern (reference matcher allV) but are "
+                              f"not matched, hence not rewritten", replay_payload(inp, impl, model, {"missed_by_model": True}))
         if same:
             continue
         ctx.count("model_impl_differ")
@@ -345,12 +358,16 @@ def engine_family(ctx, mode, checks, n_quick=400, n_thorough=16000, golden=True)
     engine_projection(ctx, res, checks)
     return res
 
+@signature("nested-elision-ambiguity")
+def sig_nested_elision(sig, what, payload):
+    return bool(payload.get("missed_by_model"))
+
 @prop("C01")
 def c01(ctx):
-    engine_family(ctx, "c01", {"status", "where"})
+    engine_family(ctx, "c01", {"status", "where", "converse"})
     # an instance needs one substitution for all occurrences of a metavariable: repeated metavariables too
     rule = ctx.rule
-    engine_family(ctx, "c02", {"status", "where"}, n_quick=250, n_thorough=8000, golden=False)
+    engine_family(ctx, "c02", {"status", "where", "converse"}, n_quick=250, n_thorough=8000, golden=False)
     ctx.rule = rule + " A second batch uses generator mode c02 (repeated metavariables with identical, almost identical and different fillers)."
 
 @prop("C02")
